@@ -22,6 +22,7 @@ type Job struct {
 	Script string   `json:"script"`
 	Abs    string   `json:"abs"`
 	Tags   []string `json:"tags,omitempty"`
+	ScriptFile string `json:"script_file,omitempty"` // session jobs: the script file; Script is then the line sent to the repl
 	Argv   []string `json:"argv,omitempty"` // command line template of the binary (@SCRIPT@ / @TEXT@), when not the default
 }
 
@@ -29,6 +30,9 @@ type Job struct {
 func (j *Job) Input() string {
 	s := strings.Join(append(append([]string{}, j.Pre...), j.Script), " ;; ")
 	s = strings.ReplaceAll(strings.ReplaceAll(s, "\t", " "), "\n", " ")
+	if j.ScriptFile != "" {
+		s = "script file: " + strings.ReplaceAll(strings.TrimSpace(j.ScriptFile), "\n", " ") + " ;; stdin: " + s
+	}
 	if len(j.Argv) > 0 {
 		s = "zygo " + strings.Join(j.Argv, " ") + " ;; " + s
 	}
@@ -47,9 +51,13 @@ const (
 	aArr      = `["@SECRET@"]`
 	aSym      = `(quote ` + envName + `)`
 	aBuilt    = `(str "@DIR@" "/secret.zy")`
+	// a path spelled as a SYMBOL: the secret file also exists as ./c08sym in the working directory, so entries
+	// that receive their arguments unevaluated (macros, builders, special forms) or accept symbols see a file name
+	aSymFile  = symFileName
+	aQSymFile = `(quote ` + symFileName + `)`
 )
 
-var pool1 = []string{aSecret, aOut, aExisting, aCmd, aEnv, aNewVar, aVal, aInt, aArr, aSym, aBuilt}
+var pool1 = []string{aSecret, aOut, aExisting, aCmd, aEnv, aNewVar, aVal, aInt, aArr, aSym, aBuilt, aSymFile, aQSymFile}
 
 var pool2 = [][]string{
 	{aSecret, aOut}, {aOut, aSecret}, {aOut, aVal}, {aExisting, aVal}, {aEnv, aVal}, {aNewVar, aVal},
@@ -81,12 +89,12 @@ func smallShapes() [][]string {
 
 // the shapes used with the indirect call forms in the quick tier
 func quickShapes() [][]string {
-	return [][]string{{aSecret}, {aOut}, {aCmd}, {aEnv}, {aArr}, {aOut, aVal}, {aNewVar, aVal}}
+	return [][]string{{aSecret}, {aOut}, {aCmd}, {aEnv}, {aArr}, {aSymFile}, {aOut, aVal}, {aNewVar, aVal}}
 }
 
 func shapeTag(args []string) string {
 	n := map[string]string{aSecret: "secret", aOut: "out", aExisting: "existing", aCmd: "cmd", aEnv: "env", aNewVar: "newvar",
-		aVal: "val", aInt: "int", aArr: "arr", aSym: "sym", aBuilt: "built"}
+		aVal: "val", aInt: "int", aArr: "arr", aSym: "sym", aBuilt: "built", aSymFile: "symfile", aQSymFile: "qsymfile"}
 	var p []string
 	for _, a := range args {
 		p = append(p, n[a])
